@@ -150,10 +150,10 @@ func c06World() *ref.World {
 
 func C06(rep *ev.Reporter, tier string) {
 	bud := NewBudget(150 * time.Second)
-	maxMax := uint64(5)
+	maxMax := uint64(8)
 	if tier == "thorough" {
 		bud = NewBudget(9 * time.Minute)
-		maxMax = 8
+		maxMax = 12
 	}
 	type rs = []*grl.Rule
 	sets := map[string]func() rs{}
